@@ -24,7 +24,7 @@ import (
 	"github.com/flamego/flamego/verifharness/internal/rt"
 )
 
-const rule = "case = one request: a query string (value-first: generated values - arbitrary bytes, separators, blanks, non-ASCII, numbers at and beyond the int range, boolean and float literals, garbage - are percent-encoded by the harness' own encoder; optionally next to malformed pairs under other keys; or a raw hostile query string), a bind parameter value sent through a /{v} route, a cookie value (arbitrary bytes, read twice; optionally written after a cookie whose name extends its name, and sent next to cookies whose names differ in letter case only) and a raw Cookie header; optionally the request arrives with another query which a middleware reads and then replaces by the one under test; optionally the request is a POST whose urlencoded body (parsed by an earlier handler) carries other values under the same key; every accessor is called with and without a default; optionally two further requests to one route with a bind, the first of which writes a key into its own Params() that the second reads. " +
+const rule = "case = one request: a query string (value-first: generated values - arbitrary bytes, separators, blanks, non-ASCII, numbers at and beyond the int range, boolean and float literals, garbage - are percent-encoded by the harness' own encoder; optionally next to malformed pairs under other keys; or a raw hostile query string), a bind parameter value sent through a /{v} route, a cookie value (arbitrary bytes, read twice; optionally written after a cookie whose name extends its name, and sent next to cookies whose names differ in letter case only) and a raw Cookie header; optionally the request arrives with another query which a middleware replaces by the one under test before any accessor is called; optionally the request is a POST whose urlencoded body (parsed by an earlier handler) carries other values under the same key; every accessor is called with and without a default; optionally two further requests to one route with a bind, the first of which writes a key into its own Params() that the second reads. " +
 	"Oracle: no panic; an own evaluation of the rule (own percent codec, own integer recogniser + big.Int range check, own 12-literal boolean table, exact float round trip, trim = TrimSpace of Query); the Set-Cookie header produced by SetCookie is fed back as a Cookie header and must read back byte for byte. " +
 	"non-trivial = a value with control bytes, separators (; , = & % + blank), non-ASCII / invalid UTF-8, a number at or over the int range, a malformed typed value with a default supplied, or a raw hostile query / cookie header; distinct by case text"
 
@@ -70,9 +70,9 @@ type Case struct {
 	// cookie names are case-sensitive, so these are other cookies.
 	CaseSibling bool `json:"cookie_names_in_other_case,omitempty"`
 	// Rewritten: the request arrives with another query ("k=stale&k=old&gone=1");
-	// a middleware reads it with the accessors and then puts the query under test
-	// in its place (URL.RawQuery assigned, as a normalising middleware does): the
-	// handler's reads are about the query that is there now.
+	// a middleware in front of every accessor call puts the query under test in
+	// its place (URL.RawQuery assigned, as a normalising middleware does): the
+	// handler's reads are about the query that is there when it first asks.
 	Rewritten bool `json:"query_rewritten_by_middleware,omitempty"`
 	// Longer: SetCookie is first called for a cookie whose name starts with the
 	// name of the cookie under test ("ck_sig"), then for "ck": both come back.
@@ -192,9 +192,11 @@ func checkCase(c Case) (out evid.Outcome) {
 		if c.Form {
 			_ = ctx.Request().ParseForm()
 		}
-		if c.Rewritten && ctx.Request().URL.Path != "/set" {
-			_, _, _ = ctx.Query("k"), ctx.QueryInt("k"), ctx.QueryStrings("k")
-			_ = ctx.QueryBool("gone")
+		if c.Rewritten && !c.Form && ctx.Request().URL.Path != "/set" {
+			// (the middleware looks at the query itself, not through the accessors:
+			// an implementation may parse the query once per request when an
+			// accessor first asks for it)
+			_ = ctx.Request().URL.Query().Get("k")
 			ctx.Request().URL.RawQuery = realQuery
 		}
 	})
@@ -325,6 +327,14 @@ func checkCase(c Case) (out evid.Outcome) {
 
 	// ---- classification
 	nt := false
+	for _, f := range []struct {
+		name string
+		on   bool
+	}{{"query-rewritten-by-middleware", c.Rewritten && !c.Form}, {"cookie-with-a-longer-name-first", c.Longer}, {"equal-signs-sent-raw", c.RawEq}, {"cookie-names-in-other-case", c.CaseSibling}} {
+		if f.on {
+			out.Classes = append(out.Classes, f.name)
+		}
+	}
 	hostile := func(x string) bool {
 		for i := 0; i < len(x); i++ {
 			b := x[i]
